@@ -332,7 +332,8 @@ where
     #[inline(always)]
     unsafe fn get_unchecked(&self, i: usize) -> Self::Item {
         let mut cur_i = i;
-        let mut result: u32 = 0;
+        let mut result: u32 = 0; // code word (compressed tree)
+        let mut plain_result = T::zero(); // symbol (plain tree): may need more than 32 bits
 
         let mut shift = 0;
 
@@ -346,7 +347,11 @@ where
             crate::verif::sched_point();
 
             let symbol = self.bvs[level].get_unchecked(cur_i);
-            result = (result << 1) | symbol as u32;
+            if COMPRESSED {
+                result = (result << 1) | symbol as u32;
+            } else {
+                plain_result = (plain_result << 1) | (symbol as usize).as_();
+            }
 
             let tmp = self.bvs[level].rank1_unchecked(cur_i);
 
@@ -365,7 +370,7 @@ where
 
             T::from(self.codes_decode.as_ref().unwrap()[shift][idx].1).unwrap()
         } else {
-            T::from(result).unwrap()
+            plain_result
         }
     }
 }
@@ -409,14 +414,18 @@ where
             symbol_len = code.len as usize;
             repr = code.content;
         } else {
-            repr = symbol.as_() as u32;
+            repr = 0; // the bits of a plain symbol are taken from `symbol` itself
             symbol_len = self.n_levels;
         }
 
         for level in 0..symbol_len {
             #[cfg(qwt_verif)]
             crate::verif::sched_point();
-            let bit = ((repr >> (symbol_len - level - 1)) & 1) == 1;
+            let bit = if COMPRESSED {
+                ((repr >> (symbol_len - level - 1)) & 1) == 1
+            } else {
+                ((symbol >> (symbol_len - level - 1)).as_() & 1) == 1
+            };
 
             let offset = self.bvs[level].n_zeros();
 
@@ -452,7 +461,7 @@ where
             symbol_len = code.len as usize;
             repr = code.content;
         } else {
-            repr = symbol.as_() as u32;
+            repr = 0; // the bits of a plain symbol are taken from `symbol` itself
             symbol_len = self.n_levels;
         }
         let mut b = 0;
@@ -465,7 +474,11 @@ where
             crate::verif::sched_point();
             path_off.push(b);
 
-            let bit = ((repr >> (symbol_len - level - 1)) & 1) == 1;
+            let bit = if COMPRESSED {
+                ((repr >> (symbol_len - level - 1)) & 1) == 1
+            } else {
+                ((symbol >> (symbol_len - level - 1)).as_() & 1) == 1
+            };
 
             let rank_b = if bit {
                 self.bvs[level].rank1(b)
@@ -484,7 +497,11 @@ where
             crate::verif::sched_point();
             b = path_off[level];
             let rank_b = rank_path_off[level];
-            let bit = ((repr >> (symbol_len - level - 1)) & 1) == 1;
+            let bit = if COMPRESSED {
+                ((repr >> (symbol_len - level - 1)) & 1) == 1
+            } else {
+                ((symbol >> (symbol_len - level - 1)).as_() & 1) == 1
+            };
 
             result = if bit {
                 self.bvs[level].select1(rank_b + result)
